@@ -226,7 +226,7 @@ def _m_space_update(eng, st, r, a, kw, e):
 def _m_list_append(eng, st, r, a, kw, e):
     x = a[0]
     if isinstance(x, E._PyTuple):
-        x = eng.tuple_val(x, st)
+        x = eng.coerce(x, r.ty.elem, st) if isinstance(r.ty, TList) else eng.tuple_val(x, st)
     if isinstance(r.ty, TEmpty):
         ty = TList(x.ty)
         r = ty.empty()
@@ -242,7 +242,11 @@ def _m_list_pop(eng, st, r, a, kw, e):
         raise OutOfSubset("list.pop(i)")
     n = ty.len(r.t)
     eng.oblige(st, f"pop_nonempty@{e.lineno}", n > 0, e.lineno, kind="safety")
-    return Val(ty.elem, ty.at(r.t)[n - 1]), Val(ty, ty.mk(n - 1, ty.at(r.t)))
+    new = Val(ty, ty.mk(n - 1, ty.at(r.t)))
+    from . import theory as _T
+    for f in _T.pop_facts(ty, r.t, new.t):
+        st.assume(f)
+    return Val(ty.elem, ty.at(r.t)[n - 1]), new
 
 
 def _m_set_add(eng, st, r, a, kw, e):
